@@ -87,8 +87,14 @@ PushRet ==
   /\ G("C09", IF CliWriteVeto THEN Ev.code = 777 ELSE (cfg.vetostage # "PreReadHeader" /\ cfg.vkind # "panic" => Ev.code = 0))
   /\ done' = TRUE /\ UNCHANGED <<cfg, sp, cp, enters, vetoSeen, cveto, hexit, ppanic>> /\ Step
 
+\* C03: a frame of an unsupported type is answered by disconnecting: no hook, no handler, no reply
+BadType ==
+  /\ Is("Quiesce") /\ cfg.kind = "badtype"
+  /\ G("C03", Ev.srvdisc /\ Ev.enters = 0 /\ enters = 0 /\ Ev.nreply = 0 /\ sp = 0)
+  /\ UNCHANGED <<cfg, sp, cp, enters, vetoSeen, cveto, hexit, done, ppanic>> /\ Step
+
 Quiesce ==
-  /\ Is("Quiesce") /\ done
+  /\ Is("Quiesce") /\ done /\ cfg.kind # "badtype"
      \* C03: one reply per CALL on a connection that stays up, never two, none for a PUSH
   /\ G("C03", /\ Ev.nreply <= 1 /\ Ev.enters <= 1
               /\ (cfg.kind = "call" /\ Ev.ncall = 1 /\ ~Ev.srvdisc => Ev.nreply = 1)
@@ -102,7 +108,7 @@ Quiesce ==
 
 Known == {"Reset", "Hook", "HEnter", "HExit", "CallDone", "PushRet", "Quiesce", "CallHang", "PushHang", "SetupFailed"}
 Skip == l <= N /\ Ev.ev \notin Known /\ UNCHANGED <<cfg, sp, cp, enters, vetoSeen, cveto, hexit, done, ppanic>> /\ Step
-Next == Reset \/ Hook \/ HEnter \/ HExit \/ CallDone \/ PushRet \/ Quiesce \/ Skip
+Next == Reset \/ Hook \/ HEnter \/ HExit \/ CallDone \/ PushRet \/ Quiesce \/ BadType \/ Skip
 Spec == Init /\ [][Next]_vars
 Accepted == PrintT(<<"HWM", TLCGet(1), N>>) /\ TRUE
 =============================================================================
